@@ -12,6 +12,7 @@ def interp():
     if _I is None:
         mirf, info = front.mir('lib')
         _I = Interp(front.REPO, mirf); _I.mir_info = info
+        _I.max_perm = 1      # hash-order nondeterminism is explored where it matters (C04, C09)
     return _I
 
 # ------------------------------------------------------------------ conversions
@@ -245,3 +246,428 @@ def token_text(t):
     if k == 'var': return '{' + s(t[1]) + '}'
     if k == 'wild': return '%' + s(t[1]) + '%'
     return '(' + ' '.join(token_text(x) for x in t[1]) + ')'
+
+# ------------------------------------------------------------------ C06: constructors / Display / parser round trip
+KEYWORDS = ['EX', 'EF', 'EG', 'EU', 'EW', 'AX', 'AF', 'AG', 'AU', 'AW', '3', 'V', 'true', 'True', '1', 'false', 'False', '0']
+def not_keyword(name):
+    """constraint: the (symbolic) name is not a reserved word"""
+    cs = []
+    for kw in KEYWORDS:
+        if len(kw) != len(name): continue
+        cs.append(z3.Not(z3.And([(c if z3.is_expr(c) else z3.BitVecVal(c, 32)) == ord(k) for c, k in zip(name, kw)])))
+    return z3.And(cs) if cs else z3.BoolVal(True)
+
+class Names:
+    """fresh symbolic identifiers"""
+    def __init__(self, ctx, tag=''): self.ctx, self.n, self.tag = ctx, 0, tag
+    def fresh(self, length=1, keyword_free=False):
+        cs = []
+        for j in range(length):
+            c = z3.BitVec(f'{self.tag}n{self.n}_{j}', 32); self.ctx.assume(name_char_domain(c)); cs.append(c)
+        self.n += 1
+        if keyword_free: self.ctx.assume(not_keyword(cs))
+        return cs
+
+UNOPS = list(TR.UN); BINOPS = list(TR.BIN)
+def child_templates(ctx):
+    """small sub-trees with concrete names"""
+    o = lambda s_: tuple(map(ord, s_))
+    P, P2, V, Wc = ('prop', o('p')), ('prop', o('q_1')), ('var', o('x')), ('wild', o('w'))
+    return [P, V, Wc, ('true',), ('false',), ('not', P), ('EX', V), ('and', P, Wc), ('EU', V, P2), ('bind', o('y'), None, ('var', o('y'))),
+            ('exists', o('z'), o('d'), P), ('jump', o('x'), ('AG', P2)), ('iff', ('not', V), ('forall', o('zz'), None, Wc))]
+
+NAME_SHAPES = [lambda n: ('prop', n), lambda n: ('var', n), lambda n: ('wild', n), lambda n: ('EX', ('prop', n)), lambda n: ('and', ('prop', n), ('var', n)),
+               lambda n: ('bind', n, None, ('var', n)), lambda n: ('exists', tuple(map(ord, 'x')), n, ('prop', tuple(map(ord, 'p')))), lambda n: ('jump', n, ('wild', n)),
+               lambda n: ('EU', ('prop', n), ('not', ('prop', n))), lambda n: ('forall', n, n, ('imp', ('wild', n), ('prop', n)))]
+
+def sc_c06(ctx, p):
+    """mode 'shape': tree = root operator (every operator / hybrid / domain choice) over child templates (concrete names);
+    mode 'names': a few shapes with one symbolic identifier of p['len'] characters used in every name slot.
+    Obligations: parse_extended_formula(tree.to_string()) == tree; stored text == canonical rendering; stored height == 1 + max child"""
+    I = interp(); I.ctx = ctx; I.steps = 0
+    if p['mode'] == 'names':
+        names = Names(ctx)
+        shape = NAME_SHAPES[ctx.choose(len(NAME_SHAPES), 'shape')]
+        nm = tuple(names.fresh(p['len'], keyword_free=True))
+        phi = shape(nm); root = ('names',)
+    else:
+        o = lambda s_: tuple(map(ord, s_))
+        roots = [('un', op) for op in UNOPS] + [('bin', op) for op in BINOPS] + [('hyb', op, d) for op in ('bind', 'exists', 'forall') for d in (False, True)] + [('jump',), ('leaf',)]
+        root = roots[ctx.choose(len(roots), 'root')]
+        temps = child_templates(ctx)
+        def child(tag):
+            t = temps[ctx.choose(len(temps), tag)]
+            if p.get('deep') and ctx.choose(2, tag + 'deep'): t = (UNOPS[ctx.choose(len(UNOPS), tag + 'u')], t)
+            return t
+        if root[0] == 'un': phi = (root[1], child('c0'))
+        elif root[0] == 'bin': phi = (root[1], child('c0'), child('c1'))
+        elif root[0] == 'hyb': phi = (root[1], o('v'), o('dom') if root[2] else None, child('c0'))
+        elif root[0] == 'jump': phi = ('jump', o('v'), child('c0'))
+        else: phi = child('c0')
+    tree = TR.build(I, phi)
+    out = {'ok': True, 'root': str(root)}
+    def fail(why, m=None):
+        m = m or ctx.model()
+        out.update({'ok': False, 'why': why, 'tree': tree_to_json(_conc_tree(phi, m))}); return out
+    # (b) stored text / height at every node
+    def walk(node, ast):
+        st, h = TR.stored(I, node)
+        okv, m = ctx.valid(_b(I.equal(RString(st), RString(R.render(ast)))))
+        if not okv: return 'stored text != canonical rendering', m
+        if h != R.height(ast): return f'stored height {h} != {R.height(ast)}', None
+        kids = TR.children(I, node); sub = [c for c in ast[1:] if isinstance(c, tuple) and c and isinstance(c[0], str)]
+        for k, a in zip(kids, sub):
+            r = walk(k, a)
+            if r: return r
+        return None
+    r = walk(tree, phi)
+    if r: return fail(r[0], r[1])
+    okv, m = ctx.valid(_b(R.tree_eq(I, TR.read(I, tree), phi)))
+    if not okv: return fail('constructed node structure differs from the arguments', m)
+    # (a) print / parse round trip
+    text = I.call('<hctl_tree::HctlTreeNode as ToString>::to_string', [Ptr(Cell(tree))])
+    pr = I.run(I.fn('parse_extended_formula'), [RStr(text.chars)])
+    if pr.variant != 0: return fail('printed tree does not parse: ' + show(pr.fields[0].chars))
+    okv, m = ctx.valid(_b(I.equal(pr.fields[0], tree)))
+    if not okv: return fail('parse(print(tree)) != tree', m)
+    return out
+SCENARIOS['c06'] = sc_c06
+
+def _conc_tree(phi, m):
+    def nm(x): return tuple(m.eval(c, model_completion=True).as_long() if z3.is_expr(c) else c for c in x)
+    op = phi[0]
+    if op in ('prop', 'var', 'wild'): return (op, nm(phi[1]))
+    if op in ('true', 'false'): return phi
+    if op == 'jump': return ('jump', nm(phi[1]), _conc_tree(phi[2], m))
+    if op in S.QUANT: return (op, nm(phi[1]), None if phi[2] is None else nm(phi[2]), _conc_tree(phi[3], m))
+    return (op,) + tuple(_conc_tree(c, m) for c in phi[1:])
+
+# ------------------------------------------------------------------ C07: validate_props_and_rename_vars
+def skeletons():
+    """tree skeletons with numbered variable-name slots ('#i') and proposition slots; quantifiers / jumps at many positions"""
+    v = lambda i: ('var', f'#{i}')
+    P, Q = ('prop', 'P'), ('prop', 'Q')
+    q = lambda op, i, body, d=None: (op, f'#{i}', d, body)
+    j = lambda i, body: ('jump', f'#{i}', body)
+    return [
+        q('bind', 0, v(1)), q('exists', 0, ('and', v(1), P)), q('forall', 0, j(1, v(2))), v(0), j(0, P), ('and', q('bind', 0, v(1)), v(2)),
+        q('bind', 0, q('exists', 1, ('and', v(2), v(3)))), q('bind', 0, q('bind', 1, v(2))), q('exists', 0, q('forall', 1, q('bind', 2, ('or', v(3), ('and', v(4), v(5)))))),
+        ('and', q('bind', 0, ('AX', v(1))), q('exists', 2, ('EF', v(3)))), ('or', q('forall', 0, v(1)), ('and', q('bind', 2, v(3)), q('exists', 4, v(5)))),
+        q('bind', 0, ('and', q('exists', 1, v(2)), q('forall', 3, ('EU', v(4), v(5))))), q('bind', 0, j(1, q('exists', 2, j(3, ('and', v(4), v(5)))))),
+        q('exists', 0, ('and', j(1, ('AX', v(2))), ('EF', j(3, P)))), ('EX', q('bind', 0, ('AG', ('EF', v(1))))), q('bind', 0, ('and', P, Q)), ('imp', P, q('forall', 0, ('iff', v(1), Q))),
+        q('bind', 0, q('exists', 1, q('forall', 2, j(3, ('and', v(4), ('or', v(5), v(6))))))), j(0, q('bind', 1, v(2))), q('bind', 0, ('and', j(1, v(2)), q('bind', 3, v(4)))),
+        q('bind', 0, v(1), 'd'), q('exists', 0, q('forall', 1, ('and', v(2), ('wild', 'w')), 'e'), 'd'), ('and', q('bind', 0, q('bind', 1, v(2))), q('bind', 3, q('bind', 4, v(5)))),
+    ]
+
+def fill(sk, names):
+    """replace '#i' by names[i]"""
+    if isinstance(sk, str): return names[int(sk[1:])] if sk.startswith('#') else tuple(map(ord, sk))
+    op = sk[0]
+    if op in ('true', 'false'): return sk
+    if op in ('var',): return ('var', fill(sk[1], names))
+    if op == 'prop': return ('prop', names['P'] if sk[1] == 'P' else names['Q'])
+    if op == 'wild': return ('wild', tuple(map(ord, sk[1])))
+    if op == 'jump': return ('jump', fill(sk[1], names), fill(sk[2], names))
+    if op in S.QUANT: return (op, fill(sk[1], names), None if sk[2] is None else tuple(map(ord, sk[2])), fill(sk[3], names))
+    return (op,) + tuple(fill(c, names) for c in sk[1:])
+
+def nslots(sk):
+    if isinstance(sk, str): return int(sk[1:]) + 1 if sk.startswith('#') else 0
+    return max([nslots(c) for c in sk[1:] if isinstance(c, (tuple, str))] + [0])
+
+def name_eq(ctx, a, b):
+    """decide (forking) whether two names (tuples of chars) are equal"""
+    if len(a) != len(b): return False
+    cs = []
+    for x, y in zip(a, b):
+        if isinstance(x, int) and isinstance(y, int):
+            if x != y: return False
+        else: cs.append((x if z3.is_expr(x) else z3.BitVecVal(x, 32)) == (y if z3.is_expr(y) else z3.BitVecVal(y, 32)))
+    return ctx.ask(z3.And(cs)) if cs else True
+
+def oracle_rename(ctx, phi, netvars):
+    """scope checker + canonical renaming by nesting depth.  Returns (ok, renamed tree | reason, max nesting depth)"""
+    maxd = [0]
+    def go(t, env):     # env: list of (name, depth) innermost last
+        op = t[0]
+        if op == 'var':
+            for nm, d in reversed(env):
+                if name_eq(ctx, t[1], nm): return ('var', tuple(map(ord, 'x' * d)))
+            raise R.Reject('free variable')
+        if op == 'prop':
+            for nv in netvars:
+                if name_eq(ctx, t[1], tuple(map(ord, nv))): return t
+            raise R.Reject('unknown proposition')
+        if op in ('true', 'false', 'wild'): return t
+        if op == 'jump':
+            body = go(t[2], env)
+            for nm, d in reversed(env):
+                if name_eq(ctx, t[1], nm): return ('jump', tuple(map(ord, 'x' * d)), body)
+            raise R.Reject('jump to an unbound variable')
+        if op in S.QUANT:
+            for nm, d in env:
+                if name_eq(ctx, t[1], nm): raise R.Reject('variable re-quantified inside its own scope')
+            d = len(env) + 1; maxd[0] = max(maxd[0], d)
+            return (op, tuple(map(ord, 'x' * d)), t[2], go(t[3], env + [(t[1], d)]))
+        return (op,) + tuple(go(c, env) for c in t[1:])
+    try: return True, go(phi, []), maxd[0]
+    except R.Reject as e: return False, str(e), None
+
+def sc_c07(ctx, p):
+    I = interp(); I.ctx = ctx; I.steps = 0
+    sks = skeletons()
+    if p.get('only') is not None: sks = [sks[i] for i in p['only']]
+    sk = sks[ctx.choose(len(sks), 'skeleton')]
+    names = Names(ctx)
+    ns = {i: tuple(names.fresh(p.get('len', 1))) for i in range(nslots(sk))}
+    ns['P'] = tuple(names.fresh(2)); ns['Q'] = tuple(map(ord, 'v1'))
+    phi = fill(sk, ns)
+    from .mirsym import biomodel
+    M = biomodel.Model(2, 0); biomodel.install(I, M)
+    tree = TR.build(I, phi)
+    r = I.run(I.fn('validate_props_and_rename_vars'), [tree, Ptr(Cell(biomodel.CtxObj(M)))])
+    ok, exp, depth = oracle_rename(ctx, phi, M.names)
+    out = {'ok': True, 'accepted': ok}
+    def fail(why, m=None):
+        m = m or ctx.model()
+        out.update({'ok': False, 'why': why, 'tree': tree_to_json(_conc_tree(phi, m))}); return out
+    if (r.variant == 0) != ok: return fail(f'preprocessing {"accepts" if r.variant == 0 else "rejects (" + show(r.fields[0].chars) + ")"}, specification {"accepts" if ok else "rejects: " + exp}')
+    if not ok: return out
+    got = TR.read(I, r.fields[0])
+    okv, m = ctx.valid(_b(R.tree_eq(I, got, exp)))
+    if not okv: return fail('renamed tree differs from the depth-named alpha-equivalent tree', m)
+    st, h = TR.stored(I, r.fields[0])
+    okv, m = ctx.valid(_b(I.equal(RString(st), RString(R.render(got)))))
+    if not okv or h != R.height(got): return fail('stored text / height of the preprocessed tree inconsistent', m)
+    # number of distinct names == maximal nesting depth (what check_hctl_var_support demands)
+    hs = I.run(I.fn('collect_unique_hctl_vars'), [TR.build(I, got)])
+    if len(hs.items) != depth: return fail(f'collect_unique_hctl_vars finds {len(hs.items)} names, nesting depth is {depth}')
+    # idempotence
+    r2 = I.run(I.fn('validate_props_and_rename_vars'), [TR.build(I, got), Ptr(Cell(biomodel.CtxObj(M)))])
+    if r2.variant != 0: return fail('preprocessing its own output fails')
+    okv, m = ctx.valid(_b(I.equal(r2.fields[0], r.fields[0])))
+    if not okv: return fail('preprocessing is not idempotent', m)
+    return out
+SCENARIOS['c07'] = sc_c07
+
+# ------------------------------------------------------------------ C09: canonisation and duplicate marking
+def pre_family():
+    """preprocessed formulas (variables named by depth); '?k' marks a variable occurrence to be bound by choice;
+    labels 'L0','L1','L2' are symbolic (canon) or concrete (dups)"""
+    def V(): return ('var', '?')
+    P, Q = ('prop', 'v0'), ('prop', 'PROP')
+    W0, W1 = ('wild', 'L0'), ('wild', 'L1')
+    B = lambda op, body, d=None: (op, '#', d, body)
+    J = lambda body: ('jump', '?', body)
+    return [
+        B('bind', ('and', ('AX', V()), ('AX', V()))),
+        B('bind', B('exists', ('and', ('AX', V()), ('EF', V())))),
+        ('and', B('bind', ('AX', V())), B('exists', ('AX', V()))),
+        B('bind', ('and', B('bind', ('AX', V())), ('and', B('exists', ('and', ('EF', V()), V())), V()))),
+        B('exists', B('exists', ('and', J(('and', ('not', V()), ('AX', V()))), J(('AX', V()))))),
+        ('and', B('bind', ('AX', V()), 'L0'), ('AX', B('bind', ('AX', V()), 'L1'))),
+        ('and', B('bind', ('and', P, ('AX', V())), 'L0'), ('AX', B('bind', ('AX', V()), 'L0'))),
+        ('and', B('bind', ('AX', V()), 'L0'), B('bind', B('bind', ('and', ('AX', V()), ('AX', V())), 'L1'), 'L0')),
+        ('and', ('EF', ('and', W0, Q)), ('AG', ('EF', ('and', W1, Q)))),
+        B('forall', ('or', ('EX', ('and', V(), W0)), B('exists', J(('EX', ('and', V(), W1))), 'L2'))),
+        ('and', B('forall', J(('AG', ('EF', ('and', V(), W0)))), 'L0'), B('forall', J(('AG', ('EF', ('and', V(), W0)))))),
+        ('or', ('and', Q, ('EX', P)), ('and', ('EX', P), ('prop', 'V3'))),
+        B('bind', ('and', ('and', B('bind', ('AX', V())), B('bind', ('and', ('EF', V()), V()))), V())),
+    ]
+
+def bind_family(ctx, sk, labels, prop):
+    """name binders by depth and let every '?' refer to one of the enclosing binders (a choice)"""
+    o = lambda s_: tuple(map(ord, s_))
+    def go(t, env):
+        op = t[0]
+        if op == 'var':
+            if not env: return ('var', o('x'))
+            return ('var', o('x' * env[ctx.choose(len(env), 'occ')]))
+        if op == 'prop': return ('prop', prop if t[1] == 'PROP' else o(t[1]))
+        if op == 'wild': return ('wild', labels[t[1]])
+        if op in ('true', 'false'): return t
+        if op == 'jump':
+            tgt = env[ctx.choose(len(env), 'jmp')] if env else 1
+            return ('jump', o('x' * tgt), go(t[2], env))
+        if op in S.QUANT:
+            d = len(env) + 1
+            return (op, o('x' * d), None if t[2] is None else labels[t[2]], go(t[3], env + [d]))
+        return (op,) + tuple(go(c, env) for c in t[1:])
+    return go(sk, [])
+
+def oracle_canon(phi):
+    """independent canoniser on the AST: names by order of first introduction (binder or free occurrence); returns
+    (canonical AST with names var<i>, mapping original name -> canonical name as used for FREE occurrences / last binding)"""
+    o = lambda s_: tuple(map(ord, s_))
+    cnt = [0]; m = {}
+    def fresh():
+        cnt[0] += 1; return o(f'var{cnt[0] - 1}')
+    def go(t):
+        op = t[0]
+        if op == 'var':
+            if t[1] not in m: m[t[1]] = fresh()
+            return ('var', m[t[1]])
+        if op in ('prop', 'wild', 'true', 'false'): return t
+        if op == 'jump':
+            if t[1] not in m: m[t[1]] = fresh()
+            nm = m[t[1]]
+            return ('jump', nm, go(t[2]))
+        if op in S.QUANT:
+            m[t[1]] = fresh(); nm = m[t[1]]
+            return (op, nm, t[2], go(t[3]))
+        return (op,) + tuple(go(c) for c in t[1:])
+    r = go(phi)
+    return r, dict(m)
+
+def free_vars_ast(t, bound=frozenset()):
+    op = t[0]
+    if op == 'var': return set() if t[1] in bound else {t[1]}
+    if op in ('prop', 'wild', 'true', 'false'): return set()
+    if op == 'jump': return (set() if t[1] in bound else {t[1]}) | free_vars_ast(t[2], bound)
+    if op in S.QUANT: return free_vars_ast(t[3], bound | {t[1]})
+    r = set()
+    for c in t[1:]: r |= free_vars_ast(c, bound)
+    return r
+
+def alpha_equiv(a, b):
+    """independent decision: equal up to a consistent renaming of state variables; labels / propositions / operators
+    literally (symbolic label characters give a z3 condition).  Returns python bool or z3 Bool."""
+    fa, fb = {}, {}; conds = []
+    def name_cond(x, y):
+        if len(x) != len(y): return False
+        cs = []
+        for c, d in zip(x, y):
+            if isinstance(c, int) and isinstance(d, int):
+                if c != d: return False
+            else: cs.append((c if z3.is_expr(c) else z3.BitVecVal(c, 32)) == (d if z3.is_expr(d) else z3.BitVecVal(d, 32)))
+        if cs: conds.append(z3.And(cs))
+        return True
+    def var(x, y, ea, eb):
+        ia = next((i for i in range(len(ea) - 1, -1, -1) if ea[i] == x), None)
+        ib = next((i for i in range(len(eb) - 1, -1, -1) if eb[i] == y), None)
+        if ia is not None or ib is not None: return ia == ib
+        if x in fa or y in fb: return fa.get(x) == fb.get(y) and x in fa and y in fb
+        fa[x] = fb[y] = len(fa); return True
+    def go(s, t, ea, eb):
+        if s[0] != t[0]: return False
+        op = s[0]
+        if op == 'var': return var(s[1], t[1], ea, eb)
+        if op in ('prop', 'wild'): return name_cond(s[1], t[1])
+        if op in ('true', 'false'): return True
+        if op == 'jump': return var(s[1], t[1], ea, eb) and go(s[2], t[2], ea, eb)
+        if op in S.QUANT:
+            if (s[2] is None) != (t[2] is None): return False
+            if s[2] is not None and not name_cond(s[2], t[2]): return False
+            return go(s[3], t[3], ea + [s[1]], eb + [t[1]])
+        return all(go(x, y, ea, eb) for x, y in zip(s[1:], t[1:]))
+    if not go(a, b, [], []): return False
+    return z3.And(conds) if conds else True
+
+def all_subtrees(t):
+    out = [t]
+    op = t[0]
+    if op in S.QUANT: out += all_subtrees(t[3])
+    elif op == 'jump': out += all_subtrees(t[2])
+    elif op not in ('var', 'prop', 'wild', 'true', 'false'):
+        for c in t[1:]: out += all_subtrees(c)
+    return out
+
+def sc_c09_canon(ctx, p):
+    I = interp(); I.ctx = ctx; I.steps = 0
+    fam = pre_family()
+    names = Names(ctx)
+    labels = {f'L{i}': tuple(names.fresh(1)) for i in range(3)}
+    prop = tuple(names.fresh(2, keyword_free=True))
+    i1 = ctx.choose(len(fam), 'tree1')
+    t1 = bind_family(ctx, fam[i1], labels, prop)
+    subs = all_subtrees(t1)
+    if p.get('pair'):
+        i2 = ctx.choose(len(fam), 'tree2')
+        subs = subs + all_subtrees(bind_family(ctx, fam[i2], labels, prop))
+    out = {'ok': True, 'group': i1}
+    def fail(why, m, *asts):
+        m = m or ctx.model()
+        out.update({'ok': False, 'why': why, 'trees': [tree_to_json(_conc_tree(a, m)) for a in asts]}); return out
+    canon = []
+    for s_ in subs:
+        text = R.render(s_)
+        r = I.run(I.fn('get_canonical_and_renaming'), [RString(text)])
+        c_str, ren = r.fields[0], r.fields[1]
+        exp, emap = oracle_canon(s_)
+        okv, m = ctx.valid(_b(I.equal(c_str, RString(R.render(exp)))))
+        if not okv: return fail('canonical form differs from first-introduction-order naming', m, s_)
+        # renaming: every free variable maps to the canonical name of its occurrences, injectively
+        fv = free_vars_ast(s_)
+        got = {tuple(k.chars): tuple(v.chars) for k, v in ren.items}
+        for v_ in fv:
+            if got.get(v_) != emap[v_]: return fail(f'renaming of free variable {show(v_)} is {show(got.get(v_, ()))}, occurrences are named {show(emap[v_])}', None, s_)
+        if len({got[v_] for v_ in fv}) != len(fv): return fail('renaming is not injective on the free variables', None, s_)
+        # idempotence
+        r2 = I.run(I.fn('get_canonical'), [RString(c_str.chars)])
+        okv, m = ctx.valid(_b(I.equal(r2, c_str)))
+        if not okv: return fail('canonising a canonical form changes it', m, s_)
+        canon.append(c_str)
+    # same canonical form  <=>  equal up to renaming
+    n = len(subs)
+    for a in range(n):
+        for b in range(a + 1, n):
+            same = _b(I.equal(canon[a], canon[b])); alpha = _b(alpha_equiv(subs[a], subs[b]))
+            okv, m = ctx.valid(same == alpha)
+            if not okv: return fail('same canonical form <=> equal up to renaming fails', m, subs[a], subs[b])
+    out['subs'] = n
+    return out
+SCENARIOS['c09_canon'] = sc_c09_canon
+
+def occurrences(trees):
+    """every sub-tree occurrence with the domains of the enclosing quantifiers: list of (ast, {name: domain})"""
+    out = []
+    def go(t, doms):
+        out.append((t, dict(doms)))
+        op = t[0]
+        if op in S.QUANT: go(t[3], {**doms, t[1]: t[2]})
+        elif op == 'jump': go(t[2], doms)
+        elif op not in ('var', 'prop', 'wild', 'true', 'false'):
+            for c in t[1:]: go(c, doms)
+    for t in trees: go(t, {})
+    return out
+
+def dup_key(ast, doms):
+    """(canonical text, domains of the free variables under canonical names) -- by the independent canoniser"""
+    exp, emap = oracle_canon(ast)
+    fv = free_vars_ast(ast)
+    return (show(R.render(exp)), tuple(sorted((show(emap[v_]), None if doms.get(v_) is None else show(doms[v_])) for v_ in fv)))
+
+def check_dups(dups, trees):
+    """every reported duplicate with counter m occurs at least m+1 times (up to renaming, identical domains of free vars)"""
+    occ = [dup_key(a, d) for a, d in occurrences(trees)]
+    for (f, dm, m) in dups:
+        key = (f, tuple(sorted(dm)))
+        cnt = sum(1 for k in occ if k == key)
+        if cnt < m + 1: return f'duplicate {f!r} with domains {dict(dm)} and counter {m} occurs only {cnt} times (up to renaming, with identical domains of its free variables)'
+    return None
+
+def sc_c09_dups(ctx, p):
+    I = interp(); I.ctx = ctx; I.steps = 0
+    I.order_mode = 'global'
+    try:
+        fam = pre_family()
+        o = lambda s_: tuple(map(ord, s_))
+        labels = {'L0': o('d1'), 'L1': o('d2'), 'L2': o('d1')}
+        k = p.get('k', 1)
+        idx = [ctx.choose(len(fam), 'tree0')]
+        for j in range(1, k):
+            sec = p.get('second') or list(range(len(fam)))
+            idx.append(sec[ctx.choose(len(sec), f'tree{j}')])
+        trees = [bind_family(ctx, fam[i], labels, o('v1')) for i in idx]
+        vec = RVec([TR.build(I, t) for t in trees])
+        r = I.run(I.fn('mark_duplicates_canonized_multiple'), [Ptr(Cell(vec))])
+        dups = []
+        for key, n in r.items:
+            f = show(key.fields[0].chars); dm = [(show(a.chars), None if b.variant == 0 else show(b.fields[0].chars)) for a, b in key.fields[1].items]
+            dups.append((f, dm, n))
+        out = {'ok': True, 'group': idx[0], 'ndups': len(dups)}
+        why = check_dups(dups, trees)
+        if why: out.update({'ok': False, 'why': why, 'trees': [tree_to_json(t) for t in trees]})
+        return out
+    finally: I.order_mode = 'perm'
+SCENARIOS['c09_dups'] = sc_c09_dups
